@@ -57,7 +57,17 @@ def main(argv):
         # negative controls: property-preserving changes (other rounding direction, other NaN sign where the
         # property allows it). Every check must stay green on them.
         allp = props or ['C%02d' % i for i in range(1, 21)]
-        mus = [dict(name='benign/' + os.path.basename(f)[:-6], patch=f, props=allp, what=open(f).readline().strip('# \n')) for f in sorted(glob.glob(os.path.join(ROOT, 'mutants', 'benign', '*.patch'))) if (not only or only in f)]
+        area = {'agent1': ['C01', 'C06', 'C16', 'C17', 'C07', 'C08'], 'agent2': ['C02', 'C03', 'C16', 'C17', 'C07', 'C08'], 'agent3': ['C04', 'C05', 'C15', 'C18', 'C16', 'C07', 'C08'],
+                'agent4': ['C09', 'C20', 'C07', 'C08'], 'agent5': ['C10', 'C11', 'C20', 'C07', 'C08'], 'agent6': ['C12', 'C13', 'C14', 'C07', 'C08'], 'agent7': ['C19', 'C07', 'C08'],
+                'agent8': ['C04', 'C09', 'C10', 'C11', 'C12', 'C13', 'C14', 'C20', 'C07', 'C08'], 'mul_': ['C02', 'C16', 'C17', 'C20', 'C07', 'C08'], 'div_': ['C03', 'C16', 'C17', 'C11', 'C07', 'C08'],
+                'floor_': ['C15', 'C04', 'C08'], 'isnan_': ['C06', 'C01', 'C08'], 'angle_': ['C19', 'C07'], 'sqrt_': ['C13', 'C14', 'C12', 'C08']}
+        def props_for(f):
+            if '--all-props' in argv or props: return allp
+            b = os.path.basename(f)
+            for k, v in area.items():
+                if b.startswith(k): return v
+            return allp
+        mus = [dict(name='benign/' + os.path.basename(f)[:-6], patch=f, props=props_for(f), what=open(f).readline().strip('# \n')) for f in sorted(glob.glob(os.path.join(ROOT, 'mutants', 'benign', '*.patch'))) if (not only or only in f)]
     else:
         mus = [m for m in collect() if (not only or only in m['name'])]
     results = []
